@@ -128,6 +128,7 @@ def main(tier, seed):
     ]
     # loops that stop only with probability < 1 (the conversion to central moments is not linear in 1/P(stop))
     shapes += [
+        ("goal_over_constant", "x = -2\nk = 2\nstop = 0\nwhile stop == 0:\n    x = x {1/2} 1/2*x + 3/2\n    stop = Bernoulli(1/5)\nend\n", ["k*x", "x", "k"], {}),
         ("stops_with_prob_half", "d = Bernoulli(1/2)\nstop = 0\nx = 0\nwhile stop == 0:\n    x = x + 1\n    if d == 1:\n        stop = Bernoulli(1/3)\n    end\nend\n",
          ["x", "stop"], {}),
         ("exit_on_draw", "stop = 0\nx = 0\nwhile stop == 0:\n    x = DiscreteUniform(0, 3)\n    if x >= 2:\n        stop = Bernoulli(1/2)\n    end\nend\n",
